@@ -66,7 +66,9 @@ def _case(draw, tier):
         c["new"] = {"depth": draw(st.integers(1, 4)), "width": draw(st.integers(1, 3)),
                     "algo": draw(st.one_of(st.sampled_from(sorted(common.STORE_ALGOS)), st.sampled_from(["sha256", "SHA-224"]))),
                     "ns": draw(st.sampled_from([common.DEFAULT_NS, "http://ns.example/v9"]))}
-        c["extra_verb"] = draw(st.booleans())
+        # the creating invocation may carry a verb, too - with per-call options whose names resemble the creation options
+        c["extra_verb"] = draw(st.sampled_from([False, "storeobject", "storeobject+algo", "storemetadata+formatid"]))
+        c["extra_algo"] = draw(st.sampled_from(["sha224", "md5", "blake2s", "SHA-512"]))
     else:
         c["opts"] = []
     return c
@@ -84,6 +86,8 @@ def run_client(argv):
     root_logger = logging.getLogger()
     handlers_before = list(root_logger.handlers)
     mp_env = os.environ.get("USE_MULTIPROCESSING")
+    umask = os.umask(0o022)      # (client and API run under the same, ordinary file-mode creation mask)
+    os.umask(umask)
     try:
         sys.argv = ["hashstore"] + argv
         with contextlib.redirect_stdout(buf), contextlib.redirect_stderr(io.StringIO()):
@@ -99,7 +103,28 @@ def run_client(argv):
                     pass
         if mp_env is None:
             os.environ.pop("USE_MULTIPROCESSING", None)
+        os.umask(umask)          # (whatever the client did to the process: the harness goes on as before)
     return out, buf.getvalue()
+
+
+def _modes(root):
+    """Permission bits of every directory and file of a store (the client's own log aside)."""
+    m = {}
+    for dp, dn, fn in os.walk(root):
+        for n in dn + fn:
+            if n != "python_client.log":
+                p = os.path.join(dp, n)
+                m[os.path.relpath(p, root)] = oct(os.lstat(p).st_mode & 0o7777)
+    return m
+
+
+def _modes_problem(rootC, rootA):
+    mC, mA = _modes(rootC), _modes(rootA)
+    bad = sorted(k for k in mC if k in mA and mC[k] != mA[k])
+    if bad:
+        return (f"{len(bad)} entries have other permission bits in the client's store than in the API's, e.g. "
+                f"{[(k[:40], mC[k], mA[k]) for k in bad[:3]]}")
+    return None
 
 
 def _oc(o):
@@ -217,6 +242,9 @@ def run_case(case, ctx):
                       f"objects {seq._dd(aC['objects'], aA['objects'])} pidrefs {seq._dd(aC['pidrefs'], aA['pidrefs'])} "
                       f"metadata {len(aC['metadata'])}/{len(aA['metadata'])} residue {aC['residue'][:2]}/{aA['residue'][:2]}",
                       {"verb": verb})
+    p = _modes_problem(rootC, rootA)
+    if p:
+        ctx.violation("client-api-state", f"{desc}: {p}", {"verb": verb, "aspect": "modes"})
     ctx.classify("verb=" + verb)
     ctx.classify("outcome=" + ("ok" if is_ok(outA) else "error"))
     if opts:
@@ -252,11 +280,21 @@ def _create(case, ctx, run, desc):
              "store_algorithm": new["algo"], "store_metadata_namespace": new["ns"]}
     outA = call(common.hs().FileHashStore, props)
     argv = [rootC, "-chs", f"-dp={new['depth']}", f"-wp={new['width']}", f"-ap={new['algo']}", f"-nsp={new['ns']}"]
-    if case.get("extra_verb"):
+    ev = case.get("extra_verb")
+    if ev:
         f = common.write_file(os.path.join(work, "obj"), b"created-then-stored")
-        argv += ["-storeobject", "-pid=first", f"-path={f}"]
-        if is_ok(outA):
-            call(outA[1].store_object, "first", f)
+        if ev == "storemetadata+formatid":
+            argv += ["-storemetadata", "-pid=first", f"-path={f}", "-formatid=fmt:per-call"]
+            if is_ok(outA):
+                call(outA[1].store_metadata, "first", f, "fmt:per-call")
+        elif ev == "storeobject+algo":
+            argv += ["-storeobject", "-pid=first", f"-path={f}", f"-algo={case.get('extra_algo', 'sha224')}"]
+            if is_ok(outA):
+                call(outA[1].store_object, "first", f, case.get("extra_algo", "sha224"))
+        else:
+            argv += ["-storeobject", "-pid=first", f"-path={f}"]
+            if is_ok(outA):
+                call(outA[1].store_object, "first", f)
     outC, stdout = run_client(argv)
     d = dict(desc, existing=existing, old=old if existing != "absent" else None, new=new)
     if is_ok(outA) != is_ok(outC):
@@ -267,6 +305,9 @@ def _create(case, ctx, run, desc):
     if sorted(sC) != sorted(sA) or any(sC[k] != sA[k] for k in sC if not k.endswith("hashstore.yaml")):
         ctx.violation("client-api-state", f"{d}: directory trees differ after create: {common.snap_diff(sC, sA)}",
                       {"verb": "create"})
+    p = _modes_problem(rootC, rootA)
+    if p:
+        ctx.violation("client-api-state", f"{d}: {p}", {"verb": "create", "aspect": "modes"})
     yC = call(lambda: yaml.safe_load(open(os.path.join(rootC, "hashstore.yaml"), encoding="utf-8")))
     yA = call(lambda: yaml.safe_load(open(os.path.join(rootA, "hashstore.yaml"), encoding="utf-8")))
     if is_ok(yC) != is_ok(yA) or (is_ok(yC) and yC[1] != yA[1]):
@@ -278,7 +319,7 @@ def _create(case, ctx, run, desc):
         if not is_ok(o):
             ctx.violation("cross-open", f"{d}: API cannot open the client-created store: {o[1]}: {o[2][:160]}", {"verb": "create"})
         o2, _ = run_client([rootA, "-getchecksum", "-pid=first", "-algo=md5"])
-        if case.get("extra_verb") and not is_ok(o2):
+        if case.get("extra_verb") in (True, "storeobject", "storeobject+algo") and not is_ok(o2):
             ctx.violation("cross-open", f"{d}: client cannot use the API-created store: {o2[1]}: {o2[2][:160]}", {"verb": "create"})
     ctx.classify("verb=create")
     ctx.classify("create-existing=" + existing)
